@@ -346,9 +346,8 @@ func (v *PacketDslVisitorImpl) VisitLengthFieldDeclaration(ctx *gen.LengthFieldD
 	typ := ctx.GetName().GetText()
 	if ctx.Type_() != nil {
 		typ = ctx.Type_().GetText()
-	}
-	if v.BinModel.MetaDataMap[name] != (model.MetaData{}) {
-		// If metadata exists, use its basic type
+	} else if v.BinModel.MetaDataMap[name] != (model.MetaData{}) {
+		// no explicit type: the field is typed by the MetaData entry of its name
 		typ = v.BinModel.MetaDataMap[name].Attr.GetType()
 	}
 	return &model.Field{
@@ -374,9 +373,8 @@ func (v *PacketDslVisitorImpl) VisitCheckSumFieldDeclaration(ctx *gen.CheckSumFi
 	typ := ctx.GetName().GetText()
 	if ctx.Type_() != nil {
 		typ = ctx.Type_().GetText()
-	}
-	if v.BinModel.MetaDataMap[name] != (model.MetaData{}) {
-		// If metadata exists, use its basic type
+	} else if v.BinModel.MetaDataMap[name] != (model.MetaData{}) {
+		// no explicit type: the field is typed by the MetaData entry of its name
 		typ = v.BinModel.MetaDataMap[name].Attr.GetType()
 	}
 	return &model.Field{
